@@ -26,7 +26,8 @@ From V Require Import Model.ZMap Model.Quorum Model.Voting Model.VotingRef Model
   Proofs.VotingProofs Proofs.VotingTheorems Proofs.FameBridge Proofs.AdmissionProofs Proofs.BlockInv
   Proofs.OrderProofs Proofs.Static Proofs.FirstDesc Proofs.CInvRun Proofs.SameHistory Proofs.Agreement
   Proofs.NoFail Proofs.AgreementU Proofs.FameInv Proofs.FamousSet Proofs.DecidedFlag Proofs.RoundReceived
-  Proofs.BlockAgree Proofs.AgreementWitness Proofs.WindowWitness.
+  Proofs.BlockAgree Proofs.AgreementWitness Proofs.WindowWitness
+  Model.Window Proofs.WindowStable Proofs.GapWindow Proofs.RoundAgreeD Proofs.ShrinkWitness.
 Import ListNotations.
 Open Scope Z_scope.
 
@@ -410,6 +411,98 @@ Example C01_dynamic_fork_by_scheduling :
   option_map (fun b => (b_index b, b_rr b, b_txs b)) (nth_error (delivered sa) 7) = Some (7, 8, [46; 47; 49; 50; 51; 52; 53]) /\
   option_map (fun b => (b_index b, b_rr b, b_txs b)) (nth_error (delivered sb) 7) = Some (7, 8, [46; 47; 49; 48; 50; 51; 52; 53; 55]).
 Proof. exact ws_facts. Qed.
+
+(* DYNAMIC MEMBERSHIP, POSITIVE PART (no [no_accept]; layer (b) of the generalisation, Proofs/FirstDescD ..
+   Proofs/RoundAgreeD).  Premise on each node: the distance bound [gap_runb] (every step leaves last_round at
+   most 5 above the next round to decide; locally checkable; it is what a commit gate would enforce; the C10_gap theorems).
+   Two such nodes -- any selfs, any schedules, even different genesis sets -- whose validator-set tables give the
+   same answer for the rounds both have ([tables_agree]) assign the same round and the same witness flag to every
+   event they share, and strongly-see (with any set) between shared events has the same value.  In both fork
+   witnesses above the tables ARE equal and the rounds differ: there the distance bound is violated on both
+   nodes (C01_dynamic_fork_violates_bound).  The step from here to the blocks is NOT true for this code: fame is
+   decided with the super-majority of the NEXT round's set (C01_agreement_under_gap_refuted below);
+   C01_agreement stays a static-membership theorem. *)
+Theorem C01_rounds_agree_dynamic : forall all self1 self2 genesis1 genesis2 oracle1 oracle2 ops1 ops2 x e1 e2,
+  ids_determine all -> self1 <> -1 -> self2 <> -1 ->
+  Forall (hop_ok all) ops1 -> Forall (hop_ok all) ops2 ->
+  gap_runb (init_hg self1 genesis1 oracle1) ops1 = true -> gap_runb (init_hg self2 genesis2 oracle2) ops2 = true ->
+  let st1 := hrun (init_hg self1 genesis1 oracle1) ops1 in
+  let st2 := hrun (init_hg self2 genesis2 oracle2) ops2 in
+  failed st1 = false -> failed st2 = false -> tables_agree st1 st2 ->
+  get_event st1 x = Some e1 -> get_event st2 x = Some e2 ->
+  ev_round e1 = ev_round e2 /\ ev_round e1 <> None /\
+  zget x (round_memo st1) = zget x (round_memo st2) /\ zget x (witness_memo st1) = zget x (witness_memo st2).
+Proof. exact (fun all s1 s2 g1 g2 o1 o2 ops1 ops2 x e1 e2 ID S1 S2 H1 H2 B1 B2 F1 F2 T =>
+                gap_round_agree all s1 s2 g1 g2 o1 o2 ops1 ops2 ID S1 S2 H1 H2 B1 B2 F1 F2 T x e1 e2). Qed.
+Print Assumptions C01_rounds_agree_dynamic.
+
+Theorem C01_strongly_see_agree_dynamic :
+  forall all self1 self2 genesis1 genesis2 oracle1 oracle2 ops1 ops2 g x w e1x e2x e1w e2w,
+  ids_determine all -> self1 <> -1 -> self2 <> -1 ->
+  Forall (hop_ok all) ops1 -> Forall (hop_ok all) ops2 ->
+  gap_runb (init_hg self1 genesis1 oracle1) ops1 = true -> gap_runb (init_hg self2 genesis2 oracle2) ops2 = true ->
+  let st1 := hrun (init_hg self1 genesis1 oracle1) ops1 in
+  let st2 := hrun (init_hg self2 genesis2 oracle2) ops2 in
+  failed st1 = false -> failed st2 = false -> tables_agree st1 st2 ->
+  get_event st1 x = Some e1x -> get_event st2 x = Some e2x ->
+  get_event st1 w = Some e1w -> get_event st2 w = Some e2w ->
+  strongly_see st1 x w g = strongly_see st2 x w g /\ strongly_see st1 x w g <> None.
+Proof. exact (fun all s1 s2 g1 g2 o1 o2 ops1 ops2 g x w e1x e2x e1w e2w ID S1 S2 H1 H2 B1 B2 F1 F2 T =>
+                gap_strongly_see_agree all s1 s2 g1 g2 o1 o2 ops1 ops2 ID S1 S2 H1 H2 B1 B2 F1 F2 T g x w e1x e2x e1w e2w). Qed.
+Print Assumptions C01_strongly_see_agree_dynamic.
+
+(* the table premise holds in particular when the two nodes have delivered the same blocks *)
+Theorem C01_same_blocks_tables_agree : forall self1 self2 genesis oracle1 oracle2 ops1 ops2,
+  self1 <> -1 -> self2 <> -1 ->
+  delivered (hrun (init_hg self1 genesis oracle1) ops1) = delivered (hrun (init_hg self2 genesis oracle2) ops2) ->
+  tables_agree (hrun (init_hg self1 genesis oracle1) ops1) (hrun (init_hg self2 genesis oracle2) ops2).
+Proof. exact same_blocks_tables_agree. Qed.
+Print Assumptions C01_same_blocks_tables_agree.
+
+Example C01_dynamic_fork_violates_bound :
+  let ia := init_hg 0 ww_g [] in let ib := init_hg 1 ww_g [] in
+  (gap_runb ia (map HInsert ws_all), gap_runb ib (map HInsert ws_all'),
+   gap_runb ia (map HInsert ww_all), gap_runb ib (map HInsert ww_all')) = (false, false, false, false) /\
+  peersets (hrun ia (map HInsert ws_all)) = peersets (hrun ib (map HInsert ws_all')).
+Proof. vm_compute. split; reflexivity. Qed.
+
+(* REFUTED EVEN UNDER THE DISTANCE BOUND: A SECOND FORK, INDEPENDENT OF THE WINDOW.  DecideFame decides at a round-j
+   witness with the super-majority of the peer-set of round j (hashgraph.go `t >= jPeerSet.SuperMajority()`), but
+   the votes it counts are those of the round j-1 witnesses (up to |set(j-1)| of them, strongly-seen with set(j-1)).
+   When the set shrinks from 5 to 4 at round j (a leave accepted 6 rounds earlier) three equal votes out of five
+   decide: one round-7 witness counts 3 no / 2 yes and decides NOT famous; the three others count 2 no / 2 yes
+   (tie = yes) and a round-8 witness decides FAMOUS with their 3 yes.  64 events, 5 validators, every coin bit
+   true, both nodes respect the distance bound and the window, same table, same rounds on both; node B receives
+   one event (60) later than node A.  Proofs/ShrinkWitness.v; reproduced on two real cores by harness/cmd/winfork
+   on corpus/C01-shrink-fork.json (KNOWN_FINDINGS C01-fame-threshold-after-shrink). *)
+Definition C01_agreement_under_gap_statement : Prop :=
+  forall genesis all self1 self2 oracle1 oracle2 ops1 ops2 k d1 d2,
+    ids_determine all -> sigkeys_determine all -> fork_free all ->
+    self1 <> -1 -> self2 <> -1 ->
+    Forall (hop_ok all) ops1 -> Forall (hop_ok all) ops2 ->
+    gap_runb (init_hg self1 genesis oracle1) ops1 = true -> gap_runb (init_hg self2 genesis oracle2) ops2 = true ->
+    let st1 := hrun (init_hg self1 genesis oracle1) ops1 in
+    let st2 := hrun (init_hg self2 genesis oracle2) ops2 in
+    nth_error (delivered st1) k = Some d1 -> nth_error (delivered st2) k = Some d2 -> b_txs d1 = b_txs d2.
+Theorem C01_agreement_under_gap_refuted : ~ C01_agreement_under_gap_statement.
+Proof. exact sh_agreement_refuted. Qed.
+Print Assumptions C01_agreement_under_gap_refuted.
+
+Example C01_shrink_fork_witness :
+  forallb e_coin sh_all = true /\
+  gap_runb (init_hg 0 sh_g []) (map HInsert sh_all) = true /\ gap_runb (init_hg 1 sh_g []) (map HInsert sh_all') = true /\
+  window_runb (init_hg 0 sh_g []) (map HInsert sh_all) = true /\ window_runb (init_hg 1 sh_g []) (map HInsert sh_all') = true /\
+  let sa := hrun (init_hg 0 sh_g []) (map HInsert sh_all) in
+  let sb := hrun (init_hg 1 sh_g []) (map HInsert sh_all') in
+  failed sa = false /\ failed sb = false /\
+  peersets sa = peersets sb /\ map (fun p => (fst p, length (snd p))) (peersets sa) = [(0, 5%nat); (7, 4%nat)] /\
+  map (rnd sa) (zseq 0 64) = map (rnd sb) (zseq 0 64) /\
+  fame_row sa 5 = [(35, TFalse); (36, TTrue); (37, TTrue); (38, TTrue); (39, TTrue)] /\
+  fame_row sb 5 = [(35, TTrue); (36, TTrue); (37, TTrue); (38, TTrue); (39, TTrue)] /\
+  map (fun b => (b_index b, b_rr b, b_txs b)) (firstn 4 (delivered sa)) = map (fun b => (b_index b, b_rr b, b_txs b)) (firstn 4 (delivered sb)) /\
+  option_map (fun b => (b_index b, b_rr b, b_txs b)) (nth_error (delivered sa) 4) = Some (4, 5, [28; 29; 30; 31; 32; 33; 34]) /\
+  option_map (fun b => (b_index b, b_rr b, b_txs b)) (nth_error (delivered sb) 4) = Some (4, 5, [28; 29; 30; 31; 32; 33]).
+Proof. exact sh_facts. Qed.
 
 (* non-vacuity on the two nodes above: node 1 (17 events) has delivered 6 blocks, node 0 (24 events) 9;
    the six are the first six of the nine *)
